@@ -122,6 +122,16 @@ def f(x: fp.Real, y: fp.Real) -> fp.Real:
 ''', 'f', ['real', 'real'], ['history', 'captured'])
 
 
+prog('list_inside_tuple_argument', '''
+@fp.fpy
+def f(p: tuple[list[fp.Real], fp.Real]) -> list[fp.Real]:
+    xs, k = p
+    for i in range(len(xs)):
+        xs[i] = xs[i] * k
+    return xs
+''', 'f', [('pair', [1, 2])], ['isolation'])
+
+
 def _programs(tier):
     names = ('helper_mutates_list', 'loop_carried_tuple', 'sem_callee_contexts', 'copy_across_loop', 'const_under_contexts', 'sem_minmax_literal_zero', 'copy_in_branch', 'shortcircuit')
     base = [p for p in corpus.P if p['name'] in names or ('alias' in p['tags'] and 'no_ref' not in p['tags'] and 'list' in p['tags'])][:10]
@@ -132,7 +142,7 @@ def tasks(tier, seed):
     ts = []
     for p in _programs(tier):
         for shape in tv.arg_shapes(p, tier):
-            if sum(c[1] for c in shape if c[0] == 'list') > 3:
+            if sum(c[1] for c in shape if c[0] in ('list', 'pair')) > 3:
                 continue
             ts.append(dict(kind='pure', name='pure/%s/%s' % (p['name'], '-'.join(str(c[-1]) if len(c) > 1 else 'r' for c in shape)), prog=p['name'], shape=[list(c) for c in shape], cost=2))
     import sys
